@@ -289,6 +289,14 @@ func runC06(c *Ctx) {
 				if bo, isB := leaf.(*ssa.BinOp); isB && bo.Op == token.ADD && (stripConv(bo.X) == ssa.Value(total) || stripConv(bo.Y) == ssa.Value(total)) {
 					ok = true
 				}
+				// the new total as the append-fragment helper returned it
+				if ex, isEx := stripConv(leaf).(*ssa.Extract); isEx && ex.Index == 0 {
+					if hc, isCall := ex.Tuple.(*ssa.Call); isCall {
+						if _, tIdx, isApp := appendsFragment(hc.Call.StaticCallee(), fn, w); isApp && tIdx < len(hc.Call.Args) && stripConv(hc.Call.Args[tIdx]) == ssa.Value(total) {
+							ok = true
+						}
+					}
+				}
 			}
 			if !ok {
 				goodR = false
@@ -460,9 +468,85 @@ func checkReassembly(c *Ctx, fn *ssa.Function, bParam *ssa.Parameter, total *ssa
 		}
 		c.check(adv, fn, "advance", in.Pos(), "the total advances by exactly the count copied", "the running total does not advance by exactly the number of bytes copied: the reported length differs from the payload length and the next fragment lands at a wrong offset")
 	})
+	// the copy and the advance may live in a helper that appends one fragment: appendFragment(b, total, f) (newTotal, ...)
+	eachInstr(fn, func(in ssa.Instruction) {
+		call, ok := in.(*ssa.Call)
+		if !ok {
+			return
+		}
+		bIdx, tIdx, ok := appendsFragment(call.Call.StaticCallee(), fn, w)
+		if !ok || bIdx >= len(call.Call.Args) || tIdx >= len(call.Call.Args) {
+			return
+		}
+		n++
+		c.check(stripConv(call.Call.Args[bIdx]) == ssa.Value(bParam) && isTotal(call.Call.Args[tIdx]), fn, "copy", in.Pos(), "payload copied to b[total:]", "the fragment's payload is not copied to b[total:] from f.Payload(): fragments overwrite each other or leave gaps")
+		adv := false
+		for _, e := range total.Edges {
+			if ex, ok := stripConv(e).(*ssa.Extract); ok && ex.Tuple == ssa.Value(call) && ex.Index == 0 {
+				adv = true
+			}
+			if stripConv(e) == ssa.Value(call) {
+				adv = true
+			}
+		}
+		c.check(adv, fn, "advance", in.Pos(), "the total advances by exactly the count copied", "the running total does not advance by exactly the number of bytes copied: the reported length differs from the payload length and the next fragment lands at a wrong offset")
+	})
 	if n == 0 {
 		c.bad(fn, "copy", fn.Pos(), "no payload is copied into the caller's buffer")
 	}
+}
+
+// appendsFragment: h copies f.Payload() (f a parameter) to b[t:] (b and t parameters) and returns t + the count copied as
+// its first result on every path; returns the indices of b and t.
+func appendsFragment(h, top *ssa.Function, w *wsAnchors) (int, int, bool) {
+	if h == nil || h.Blocks == nil || !isHelperOf(top, h) {
+		return 0, 0, false
+	}
+	var cp *ssa.Call
+	bIdx, tIdx := -1, -1
+	eachInstr(h, func(in ssa.Instruction) {
+		call, ok := in.(*ssa.Call)
+		if !ok {
+			return
+		}
+		if b, ok := call.Call.Value.(*ssa.Builtin); !ok || b.Name() != "copy" {
+			return
+		}
+		dst, okD := stripConv(call.Call.Args[0]).(*ssa.Slice)
+		src, okS := stripConv(call.Call.Args[1]).(*ssa.Call)
+		if !okD || !okS || !isCallToFn(src, w.payloadM) || dst.Low == nil || dst.High != nil {
+			return
+		}
+		if _, isPrm := stripConv(src.Call.Args[0]).(*ssa.Parameter); !isPrm {
+			return
+		}
+		for i, q := range h.Params {
+			if stripConv(dst.X) == ssa.Value(q) {
+				bIdx = i
+			}
+			if stripConv(dst.Low) == ssa.Value(q) {
+				tIdx = i
+			}
+		}
+		cp = call
+	})
+	if cp == nil || bIdx < 0 || tIdx < 0 {
+		return 0, 0, false
+	}
+	for _, r := range returnsOf(h) {
+		if len(r.Results) == 0 {
+			return 0, 0, false
+		}
+		bo, ok := stripConv(r.Results[0]).(*ssa.BinOp)
+		if !ok || bo.Op != token.ADD {
+			return 0, 0, false
+		}
+		x, y := stripConv(bo.X), stripConv(bo.Y)
+		if !((x == ssa.Value(h.Params[tIdx]) && y == ssa.Value(cp)) || (y == ssa.Value(h.Params[tIdx]) && x == ssa.Value(cp))) {
+			return 0, 0, false
+		}
+	}
+	return bIdx, tIdx, true
 }
 
 func checkReassemblyAsync(c *Ctx, cf *ssa.Function, bCell, total, cont, mtype *ssa.FreeVar, w *wsAnchors, typeNone int64, isControl *ssa.Function) {
@@ -496,6 +580,36 @@ func checkReassemblyAsync(c *Ctx, cf *ssa.Function, bCell, total, cont, mtype *s
 				if _, other, ok := operandsWhere(bo, func(v ssa.Value) bool { return isLoad(v, total) }); ok && stripConv(other) == ssa.Value(call) {
 					adv = true
 				}
+			}
+		})
+		c.check(adv, cf, "advance", in.Pos(), "the total advances by exactly the count copied", "the running total does not advance by exactly the number of bytes copied")
+	})
+	eachInstr(cf, func(in ssa.Instruction) {
+		call, ok := in.(*ssa.Call)
+		if !ok {
+			return
+		}
+		top := cf
+		for top.Parent() != nil {
+			top = top.Parent()
+		}
+		bIdx, tIdx, ok := appendsFragment(call.Call.StaticCallee(), top, w)
+		if !ok || bIdx >= len(call.Call.Args) || tIdx >= len(call.Call.Args) {
+			return
+		}
+		n++
+		c.check(isLoad(call.Call.Args[bIdx], bCell) && isLoad(call.Call.Args[tIdx], total), cf, "copy", in.Pos(), "payload copied to b[total:]", "the fragment's payload is not copied to b[total:] from f.Payload()")
+		adv := false
+		eachInstr(cf, func(x ssa.Instruction) {
+			st, ok := x.(*ssa.Store)
+			if !ok || st.Addr != ssa.Value(total) {
+				return
+			}
+			if ex, ok := stripConv(st.Val).(*ssa.Extract); ok && ex.Tuple == ssa.Value(call) && ex.Index == 0 {
+				adv = true
+			}
+			if stripConv(st.Val) == ssa.Value(call) {
+				adv = true
 			}
 		})
 		c.check(adv, cf, "advance", in.Pos(), "the total advances by exactly the count copied", "the running total does not advance by exactly the number of bytes copied")
